@@ -42,6 +42,8 @@ pub fn line_starts(t: &[u8]) -> Vec<usize> {
 
 pub struct Q<'t> {
     pub tr: &'t mut Trace,
+    /// also probe k >= 2^32 (C07's u32-truncation finding); off when another property reuses the queries
+    pub wrap: bool,
 }
 
 pub fn res(r: Result<Option<usize>, String>) -> i64 {
@@ -95,6 +97,9 @@ pub fn queries<W: AsRef<[u64]>>(q: &mut Q, r: &mut Rng, idx: &JsonIndex<W>, text
         for _ in 0..30 {
             ks.push(r.below(n1 + 1));
         }
+    }
+    if !q.wrap {
+        ks.retain(|&k| k < (1 << 32) || k == u64::MAX);
     }
     ks.sort_unstable();
     ks.dedup();
